@@ -166,7 +166,45 @@ func genReopen(g *vh.Gen) {
 	}
 }
 
+// genMany: ONE delivery that must displace MANY older messages on the memory store with a size limit:
+// 64 resident messages of 60 bytes (3840 of 4096 bytes), then a large message that still fits and
+// needs k = 1, 10, 32, 33, 60 or all 64 of them evicted; afterwards listings and a visit (the bytes
+// kept must be within the limit and exactly the longest fitting suffix of the arrival order), then
+// more of the same.
+func genMany(g *vh.Gen) {
+	ks := []int{1, 10, 32, 33, 60, 64}
+	for i := 0; i < g.N(12, 400); i++ {
+		names := []string{"many-a", "many-b"}
+		date := 1600004000
+		var ops []string
+		add := func(mb, size int) {
+			date += 3
+			ops = append(ops, "a"+vh.I(mb)+":"+vh.I(date)+":"+vh.I(size))
+		}
+		fillSmall := func(n int) {
+			for j := 0; j < n; j++ {
+				add(g.Intn(2), 60)
+			}
+		}
+		fillSmall(64)
+		k := ks[i%len(ks)]
+		large := 4096
+		if k < 64 {
+			large = 256 + 60*k - 30
+		}
+		add(g.Intn(2), large)
+		ops = append(ops, "l0", "l1", "v")
+		// once more from whatever is left: top up with small ones, then another large one
+		fillSmall(20 + g.Intn(30))
+		ops = append(ops, "l0", "l1")
+		add(g.Intn(2), 256+60*ks[g.Intn(len(ks)-1)])
+		ops = append(ops, "l0", "l1", "v")
+		sd.EmitHistory(g, []string{"mem"}, "direct", 0, 4, names, joinOps(ops))
+	}
+}
+
 func genAll(g *vh.Gen) {
+	genMany(g)
 	gen(g)
 	genBoth(g)
 	genWrap(g)
